@@ -217,13 +217,17 @@ def get_model(
             right_asset.type)
 
         if not assoc:
-            logger.error(
-                'Failed to find ("%s", "%s", "%s", "%s")'
-                'association in language specification!',
+            # The query pairs every relationship a->b with every relationship
+            # b->a. When two assets are linked by more than one association
+            # that includes combinations of fields that belong to different
+            # associations; those are not links, skip them.
+            logger.debug(
+                'Skip ("%s", "%s", "%s", "%s"), it does not match any '
+                'association in the language specification.',
                 left_asset.type, right_asset.type,
                 left_field, right_field
             )
-            return None
+            continue
 
         logger.debug('Found "%s" association.', assoc.name)
 
